@@ -27,6 +27,11 @@ CLAIMED = {
          "real matrices) and returns the specified index list; zero row sums and symmetry preserved. One step covers histories of any "
          "length. SQRA.cut_and_merge runs on symbolic energies, temperature and limits (4 limit combinations). No exception allowed for "
          "in-range arguments.", "§5 C13"),
+ "C17": ("For every token structure of 1..3 (thorough 4) tokens over the property's alphabet (8 algorithm names, zero, none, None, junk, -3, "
+         "empty token, plain and zero-padded numbers) and both roles, the real parser runs with the VALUE of every numeric token symbolic "
+         "(0<=n<10^6): on every feasible path the outcome is ValueError or (alg valid for role, N>=1, N=1 iff zero algorithm, N is the number "
+         "in the name, bare N>1 gets the role default, given algorithm kept), two numbers / two algorithm tokens are rejected, and re-parsing "
+         "alg_N gives the same pair. Any other exception is a violation.", "§5 C17"),
 }
 NA = {
  "C03": "Claim is that Qhull's SphericalVoronoi regions/areas are the true nearest-neighbour cells: compiled geometry with no encodable source; a stub would assume the property (the symmetric assembly around it is verified under C04).",
